@@ -266,6 +266,17 @@ def simplify_equality(
     if isinstance(simplified_equation, BooleanTrue):
         return None
 
+    if not isinstance(simplified_equation, Eq):
+        # the two sides can never be equal - keeping a condition that is always false.
+        difference = simplify(transformed_left_expr - transformed_right_expr)
+        pddl_difference = convert_expr_to_pddl(
+            difference,
+            symbolic_vars,
+            decimal_digits=decimal_digits,
+            should_remove_trailing_zeros=False,
+        )
+        return f"(= {pddl_difference} 0)"
+
     pddl_left_side = convert_expr_to_pddl(
         simplified_equation.lhs, symbolic_vars, decimal_digits=decimal_digits
     )
